@@ -7,7 +7,7 @@ from .c20 import S_ARM
 
 LEVEL = 'fault_enumeration'
 ENGINE = 'SEQ+LAND'
-TECHNIQUE = 'exhaustive enumeration of server populations (multisets of children in the listed states x one-shot/persistent x in/out of a context) x the two ways of stopping the server, plus the stop request landing at every line-level point of the server main thread while it starts a worker (shutdown racing start-up)'
+TECHNIQUE = 'exhaustive enumeration of server populations (multisets of children in the listed states x one-shot/persistent x in/out of a context) x the two ways of stopping the server, plus the stop request landing at every line-level point of the server main thread while it starts a worker next to a running one (shutdown racing start-up)'
 LEVEL_TEXT = ('every multiset of 0-3 (thorough 0-4) children over {cooperative, swallowing exceptions, idle persistent, finished, inside a context} is built on a fresh real server which is then stopped by terminate() or SIGTERM; oracle within 10 s: no process of that server is left (found through their environment tag, re-parented orphans included), every parent-side worker wait(10) returns True without blocking longer, a finished worker keeps its outcome, every other worker has has_error True, result None and error WorkerTerminatedError or None (WorkerTerminatedError required for a cooperative one-shot child stopped by terminate()); LAND: one run per landing point of the stop in the server main thread during a worker start-up')
 LEVEL_NOTE = 'populations are multisets, not sequences (creation order is fixed); timing inside a population is whatever the OS does; bound 10 s'
 
